@@ -94,17 +94,18 @@ def run(IH5MFRecord, IH5Manifest, IH5UBExtManifest, hashsum_file, P, opn, prefix
                     data = f.read()
                 with opn(side, "wb") as f:
                     f.write(data.replace(b'"manifest_exts"', b'"manifest_exts" '))
+                import gc
                 for mode in ("r", "r+", "a"):
                     try:
                         x = IH5MFRecord(prefix, mode)
                     except ValueError:
-                        continue
-                    x.close(commit=False)
-                    return bad(label, "edited manifest of the newest committed container accepted in mode", mode)
+                        x = None
+                    if x is not None:
+                        x.close(commit=False)
+                        return bad(label, "edited manifest of the newest committed container accepted in mode", mode)
+                    gc.collect()  # (real h5py: a refused open leaves its read-only handles to the garbage collector)
                 with opn(side, "wb") as f:
                     f.write(data)
-                import gc
-                gc.collect()  # (real h5py: a refused open leaves its read-only handles to the garbage collector)
             r = IH5MFRecord(prefix, act.split("_")[1])
             if not check_open(r, label, want):
                 return False
